@@ -29,7 +29,7 @@ import core
 from ser import Ser, Ids, Unsupported, rat
 
 LEAN_MODULE = "Optyx.Props.C16"
-EXTRA_MODULES = ["Optyx.Props.PinsC16"]   # transcription anchors (harness/source_pins.py)
+EXTRA_MODULES = ["Optyx.Props.PinsC16", "Optyx.Props.VarsTie"]   # transcription anchors (harness/source_pins.py)
 THEOREMS = [
     "Optyx.Props.C16.problemVariables_spec",
     "Optyx.Props.C16.generalVariables_spec",
@@ -43,6 +43,9 @@ THEOREMS = [
     "Optyx.Props.C16.problemVariables_perm_invariant",
     "Optyx.Props.C16.get_bounds_spec",
     "Optyx.Props.SortText.sortKey_text",
+    "Optyx.Props.VarsTie.svsVisit_eq",
+    "Optyx.Props.VarsTie.svsFrame_text",
+    "Optyx.Props.VarsTie.svsRun_eq",
     "Optyx.Props.PinsC16.anchors",
 ]
 ASSUMPTIONS = [
